@@ -216,9 +216,16 @@ def verdict_cases(ctx):
             if key not in seen:
                 seen.add(key)
                 writers.append(c47.W(key[0], servers[key[1]]))
-        nref = r.randrange(1, len(writers) + 1)                  # at least one write is refused: another version was met
-        nerr = r.randrange(0, len(writers) - nref + 1) if i % 3 else len(writers) - nref    # every third case: everything else is lost
-        kinds = ["ref"] * nref + ["err"] * nerr + ["ok"] * (len(writers) - nref - nerr)
+        foreign_only = (i % 4 == 1)
+        if foreign_only:
+            # every write is ACCEPTED, but one answer shows a share of another version under a share number this publisher
+            # does not write to that server (numbers 6.. are never ours): the other version was met all the same
+            nref, nerr = 0, 0
+            kinds = ["foreign"] + ["ok"] * (len(writers) - 1)
+        else:
+            nref = r.randrange(1, len(writers) + 1)                  # at least one write is refused: another version was met
+            nerr = r.randrange(0, len(writers) - nref + 1) if i % 3 else len(writers) - nref    # every third case: everything else is lost
+            kinds = ["ref"] * nref + ["err"] * nerr + ["ok"] * (len(writers) - nref - nerr)
         r.shuffle(kinds)
         answers = []
         for w, kd in zip(writers, kinds):
@@ -226,14 +233,18 @@ def verdict_cases(ctx):
                 answers.append((w, ("err",)))
             elif kd == "ref":
                 answers.append((w, ("ans", False, [(w.shnum, c47.other_checkstring(r))])))
+            elif kd == "foreign":
+                answers.append((w, ("ans", True, [(w.shnum, c47.OURS), (6 + r.randrange(3), c47.other_checkstring(r))])))
             else:
                 answers.append((w, ("ans", True, [(w.shnum, c47.OURS)])))
         r.shuffle(answers)
         out, _placed = c47.drive_unit(k, writers, answers)
-        case = {"k": k, "writers": [(w.shnum, w.server.i) for w in writers], "answers": [[(w.shnum, w.server.i), kd] for (w, _a), kd in zip(answers, [("err" if a[0] == "err" else ("ok" if a[1] else "refused")) for _w, a in answers])]}
+        case = {"k": k, "writers": [(w.shnum, w.server.i) for w in writers], "answers": [[(w.shnum, w.server.i), kd] for (w, _a), kd in zip(answers, [("err" if a[0] == "err" else (("ok" if len(a[2]) == 1 else "ok+foreign-share") if a[1] else "refused")) for _w, a in answers])]}
         ctx.case(repr(case), kind="verdict:%s" % out)
         if out != "UncoordinatedWrite":
-            ctx.oracle_fail("met-other-version-without-ucwe", "a publisher had %d of its %d writes refused (the share held another version) and ended with %s instead of "
+            ctx.oracle_fail("met-other-version-without-ucwe", ("a publisher whose writes were all accepted was shown a share of another version on a server it wrote to "
+                            "and ended with %s instead of UncoordinatedWriteError (k=%d)" % (out, k)) if foreign_only else
+                            "a publisher had %d of its %d writes refused (the share held another version) and ended with %s instead of "
                             "UncoordinatedWriteError (k=%d, %d connection errors)" % (nref, len(writers), out, k, nerr), case=case,
                             expected="UncoordinatedWrite", observed=out)
 
@@ -332,6 +343,9 @@ def grid_cases(ctx):
         S = r.choice([N, N, max(3, N // 2), 10])
         S = min(S, 10)
         fmt = r.choice(["sdmf", "mdmf"])
+        if i < 3:
+            fmt = ["sdmf", "mdmf", "sdmf"][i]
+            k, N, S = [(3, 10, 10), (3, 10, 10), (2, 6, 6)][i]
         fifo = r.choice(["none", "server"])
         case = {"seed": seed, "writers": W, "k": k, "N": N, "servers": S, "format": fmt, "fifo": fifo}
         missing = r.choice([0, 0, 1, 2]) if N >= 3 else 0
@@ -346,6 +360,17 @@ def grid_cases(ctx):
                 for sh in shs0[:min(missing, max(0, len(shs0) - k))]:
                     g.delete_share(sh)
             datas = [b"writer-%d-" % j + bytes([65 + j]) * r.randrange(1, 40) for j in range(W)]
+            if i < 3 or r.random() < 0.15:
+                # one share-holding server fails the survey's read(s) but accepts writes afterwards: the publisher does not know
+                # its share and places that share number afresh -- possibly on that very server, where the "must not exist yet"
+                # test has to refuse it.  (Cases 0..2 of every run; SDMF and MDMF alternate there.)
+                if i < 3:
+                    W = 1
+                    datas = datas[:1]
+                holders = sorted(set(sh.server for sh in g.find_shares(cap)))
+                blind = r.choice(holders)
+                case["server_failing_survey_reads"] = blind
+                g.set_faults([{"server": blind, "method": "slot_readv", "nth": 0, "count": 1 if i >= 3 else 2, "action": "error"}])
             wlog = []
             restore = watch_server_writes(wlog)
             try:
@@ -353,6 +378,7 @@ def grid_cases(ctx):
                 out = g.run(defer.DeferredList(ds, consumeErrors=True), outcome=True)
             finally:
                 restore()
+                g.set_faults([])
             bad = unguarded_overwrites(wlog)
             if bad:
                 ctx.case((seed, "unguarded"), kind="grid:unguarded-overwrite")
